@@ -11,6 +11,11 @@ CHECKS = {
          "trusts rustc_parse_format of the installed nightly as the std::fmt reference; harness mounts impl/src/*.rs via #[path] from a content-synchronised mirror of /repo",
          "DESIGN.md section 5 C03"),
 }
+CHECKS["C02"] = ("proggen",
+  "differential testing of generated derive programs against plain format! with the same literal/arguments (proptest dice-driven generator, real proc-macro, rustc)",
+  "Generated-input search: thousands of generated structs/enum variants deriving each of the nine fmt traits with generated literals and argument lists are compiled by the real proc-macro; each value is formatted through the derived impl and through a reference method that calls format! with the identical literal, arguments and documented bindings; texts must be byte-equal. Also attribute-less single-field delegation and unit names under all eight rename_all casings against an independent casing function.",
+  "trusts rustc/format! of the installed stable toolchain as reference; casing oracle only for names made of [A-Z][a-z]+ words",
+  "DESIGN.md section 5 C02")
 NOT_YET = {}
 
 def main():
